@@ -27,7 +27,7 @@
    generator theorem: transfers with per-call verify=True (vtransfer_prog, mt_loop with v = true) and a
    corrupt SOURCE object - both through [valid_trace] / [crash_inv_b] of the recorded traces only. *)
 From Coq Require Import NArith List Bool.
-From DvcData Require Import Base.Val Model.AddSteps Proofs.AddStepsProofs Proofs.AddStepsProgs Proofs.AddStepsRecover Proofs.AddStepsVerify Proofs.AddStepsRecoverVerify Proofs.AddStepsMulti Proofs.AddStepsMultiRecover Proofs.AddStepsExamples.
+From DvcData Require Import Base.Val Model.AddSteps Proofs.AddStepsProofs Proofs.AddStepsProgs Proofs.AddStepsRecover Proofs.AddStepsVerify Proofs.AddStepsRecoverVerify Proofs.AddStepsMulti Proofs.AddStepsMultiRecover Proofs.AddStepsExamples Gen.DbAdd Proofs.AddStepsTie.
 Import ListNotations.
 Open Scope N_scope.
 
@@ -243,3 +243,40 @@ Theorem C15_recover_mtransfer :
       (forall o, In o qs -> good bytes H (run bytes empty p1 wc) o).
 Proof. exact mtransfer_recover. Qed.
 Print Assumptions C15_recover_mtransfer.
+
+(* ---- the tie to the source: the add programs all generator theorems above are built from ARE
+   HashFileDB.add as the translator reads it from /repo on every run (Gen/DbAdd.v).  [g_add]
+   interprets the generated decisions (effective verify flag, guard / iteration / swallowed exceptions
+   of the pre-add check, what super().add is given, body and handlers of the post loop, the one state
+   transaction); at every prefix - every crash point - it yields the world of the hand-written
+   program. *)
+Theorem C15_add_model_is_source_add :
+  forall (bytes : Type) (H : bytes -> oid) (empty : bytes) (part : bytes -> bytes)
+         (percall : option bool) (store chk : bool) (t : N) (its : items bytes) (w : world bytes),
+    prefix_states bytes empty (g_add bytes H empty percall store chk (cp_local bytes part t its) (map fst its) w) w
+    = prefix_states bytes empty (add_gen bytes H empty part (eff_verify percall store) chk t its w) w.
+Proof. exact add_gen_is_source_add. Qed.
+Print Assumptions C15_add_model_is_source_add.
+
+(* the same for a directory object added from memory by add_update_tree (no per-call flag, the
+   signature's default check_exists) *)
+Theorem C15_mem_add_model_is_source_add :
+  forall (bytes : Type) (H : bytes -> oid) (empty : bytes)
+         (store : bool) (t : N) (it : oid * bytes) (w : world bytes),
+    prefix_states bytes empty
+      (g_add bytes H empty tree_add_percall_verify store tree_add_check_exists (cp_mem bytes t it) [fst it] w) w
+    = prefix_states bytes empty (mem_add_gen bytes H empty (eff_verify tree_add_percall_verify store) t it w) w.
+Proof. exact mem_add_gen_is_source_add. Qed.
+Print Assumptions C15_mem_add_model_is_source_add.
+
+(* what the generated text says today (closed by computation on Gen/DbAdd.v) *)
+Theorem C15_source_add_facts :
+  DEFAULT_VERIFY = false /\ add_default_check_exists = true /\ add_default_hardlink = false /\
+  (forall v, pre_runs v = v) /\ pre_over = OidsGiven /\
+  post_body true = [PCheck true; PProtect] /\ post_body false = [PProtect] /\
+  post_handler ExcObjectFormat = Some HReport /\ post_handler ExcFileNotFound = Some HPass /\
+  copy_reports = true /\ (forall b, copy_hardlink b = b) /\ (forall b, copy_check_exists b = b) /\
+  tree_add_hardlink = false /\ migrate_hardlink = true /\ migrate_into = Dest /\ migrate_from_fs = Src /\
+  prepare_hash_name = Dest /\ prepare_state = Dest /\ prepare_lists = Src.
+Proof. exact source_add_facts. Qed.
+Print Assumptions C15_source_add_facts.
